@@ -657,7 +657,7 @@ struct Stats {
     digest: u64,
 }
 
-fn run_batch(infos_fn: fn() -> Vec<ClientInfo>, tapes: &[Vec<u64>], property: &'static str) -> Stats {
+fn run_batch(infos_fn: fn() -> Vec<ClientInfo>, tapes: &[Vec<u64>], property: &'static str, isolate_every: usize) -> Stats {
     let next = AtomicUsize::new(0);
     let out = Mutex::new(Stats::default());
     std::thread::scope(|s| {
@@ -671,7 +671,13 @@ fn run_batch(infos_fn: fn() -> Vec<ClientInfo>, tapes: &[Vec<u64>], property: &'
                     if i >= tapes.len() {
                         break;
                     }
-                                        let (facts, ch, sc) = run_isolated(&infos, &insts, &tapes[i], property);
+                                        // enumerated multi-round histories and every `isolate_every`-th run execute in a fresh thread (no
+                    // thread-local state can leak in); the bulk runs on the worker thread
+                    let multi_round_enumerated = tapes[i].get(2).copied().unwrap_or(0) > 0 && tapes[i].len() < 48;
+                    let (facts, ch, sc) = if multi_round_enumerated || (isolate_every > 0 && i % isolate_every == 0) { run_isolated(&infos, &insts, &tapes[i], property) } else { run_inline(&infos, &insts, &tapes[i], property) };
+                    if multi_round_enumerated || (isolate_every > 0 && i % isolate_every == 0) {
+                        *st.probes.entry("runs_in_fresh_thread".into()).or_insert(0) += 1;
+                    }
                     st.runs += 1;
                     st.calls += sc.rounds.iter().map(Vec::len).sum::<usize>() as u64;
                     st.virtual_us += facts.virtual_us;
@@ -734,10 +740,37 @@ fn run_batch(infos_fn: fn() -> Vec<ClientInfo>, tapes: &[Vec<u64>], property: &'
     out.into_inner().unwrap()
 }
 
-/// Runs one tape. (A fresh thread per run would also isolate thread-local state that emitted code might keep, but
-/// thread creation costs ~0.5 ms of system time here, 10x the run itself; instead a violation that does not replay in
-/// a fresh process is re-checked in-process and reported with a note, see main.)
+/// Runs one tape in a freshly spawned thread, so that thread-local state which emitted code might keep cannot leak
+/// from one run into the next: a run is a function of its tape alone (process-wide statics are the exception; see
+/// the context-dependent replay in main).
 fn run_isolated(infos: &[ClientInfo], insts: &[Instances], tape: &[u64], property: &str) -> (RunFacts, Chooser, Scenario) {
+    let r = std::thread::scope(|s| {
+        std::thread::Builder::new()
+            .stack_size(1 << 20)
+            .spawn_scoped(s, || {
+                let mut ch = Chooser::replay(tape.to_vec());
+                let sc = decode_scenario(&mut ch, infos);
+                let facts = run_scenario(infos, insts, &sc, &mut ch, property);
+                (facts, ch, sc)
+            })
+            .expect("spawn")
+            .join()
+    });
+    match r {
+        Ok(x) => x,
+        Err(e) => {
+            let msg = e.downcast_ref::<String>().cloned().or(e.downcast_ref::<&str>().map(|s| (*s).to_string())).unwrap_or_default();
+            let mut ch = Chooser::replay(tape.to_vec());
+            let sc = decode_scenario(&mut ch, infos);
+            let mut facts = RunFacts::default();
+            facts.findings.push(Finding { class: "client-panicked".into(), key: "client-panicked".into(), detail: format!("the generated client (or its driver) panicked: {msg}") });
+            (facts, ch, sc)
+        }
+    }
+}
+
+/// Same, on the calling thread (bulk runs: creating a thread costs ~1 ms here, 20x the run itself).
+fn run_inline(infos: &[ClientInfo], insts: &[Instances], tape: &[u64], property: &str) -> (RunFacts, Chooser, Scenario) {
     let r = std::panic::catch_unwind(std::panic::AssertUnwindSafe(|| {
         let mut ch = Chooser::replay(tape.to_vec());
         let sc = decode_scenario(&mut ch, infos);
@@ -755,6 +788,18 @@ fn run_isolated(infos: &[ClientInfo], insts: &[Instances], tape: &[u64], propert
             (facts, ch, sc)
         }
     }
+}
+
+/// Does `tape` show `key` when it is the first thing a new process runs? (process-wide statics in emitted code cannot
+/// be reset in-process, so reproduction is established in a fresh process)
+fn reproduces_in_fresh_process(property: &str, tape: &[u64], key: &str) -> bool {
+    use std::sync::atomic::{AtomicU64, Ordering};
+    static N: AtomicU64 = AtomicU64::new(0);
+    let f = simkernel::scratch_root().join(format!("probe-{}-{}.json", std::process::id(), N.fetch_add(1, Ordering::Relaxed)));
+    let _ = std::fs::write(&f, json!({"tape": tape, "key": key}).to_string());
+    let st = std::process::Command::new(std::env::current_exe().unwrap()).arg(property).arg("--probe").arg(&f).status();
+    let _ = std::fs::remove_file(&f);
+    matches!(st, Ok(s) if s.code() == Some(1))
 }
 
 fn build_tapes(infos: &[ClientInfo], property: &str, tier: &str, seed: u64) -> (Vec<Vec<u64>>, Value) {
@@ -943,6 +988,15 @@ fn main() {
     }
     let insts: Vec<Instances> = infos.iter().map(|i| Instances { v: simkernel::serde_json::from_str(i.instances_json).unwrap_or(Value::Null) }).collect();
 
+    if let Some(i) = rest.iter().position(|a| a == "--probe") {
+        // fresh-process oracle used while minimising: does this tape, run first in a new process, show this key?
+        let text = std::fs::read_to_string(&rest[i + 1]).unwrap_or_default();
+        let v: Value = simkernel::serde_json::from_str(&text).unwrap_or(Value::Null);
+        let tape = simkernel::tape_values_from_json(&v["tape"]);
+        let key = v["key"].as_str().unwrap_or("");
+        let hit = run_isolated(&infos, &insts, &tape, property).0.findings.iter().any(|x| x.key == key);
+        std::process::exit(i32::from(hit));
+    }
     if let Some(path) = replay {
         let v = match simkernel::load_replay(std::path::Path::new(&path)) {
             Ok(v) => v,
@@ -951,6 +1005,21 @@ fn main() {
                 std::process::exit(2);
             }
         };
+        if v["scenario"]["context_dependent"].as_bool() == Some(true) {
+            let btier = v["scenario"]["batch"]["tier"].as_str().unwrap_or("quick").to_string();
+            let bseed = v["scenario"]["batch"]["seed"].as_u64().unwrap_or(simkernel::DEFAULT_SEED);
+            let (tapes, _) = build_tapes(&infos, property, &btier, bseed);
+            let stats = run_batch(clients::all, &tapes, property, 16);
+            let want = v["key"].as_str().unwrap_or("");
+            if let Some((_, f)) = stats.found.iter().find(|(_, f)| f.key == want) {
+                println!("REPLAY property={property} class={} key={} :: {} (batch re-run, seed {bseed}, tier {btier})", f.class, f.key, f.detail);
+                println!("REPLAY-REPRODUCED");
+                println!("VIOLATION property={property} replay={path}");
+                std::process::exit(1);
+            }
+            println!("REPLAY property={property} no violation with this key in the re-run batch");
+            std::process::exit(0);
+        }
         let tape = simkernel::tape_values_from_json(&v["tape"]);
         let (facts, _ch, _sc) = run_isolated(&infos, &insts, &tape, property);
         for l in &facts.trace {
@@ -971,7 +1040,7 @@ fn main() {
     let level = if property == "C16" { "fault_enumeration" } else { "exploration" };
     let mut report = Report::new(property, "net", &tier, level);
     let (tapes, product) = build_tapes(&infos, property, &tier, report.seed);
-    let stats = run_batch(clients::all, &tapes, property);
+    let stats = run_batch(clients::all, &tapes, property, 16);
 
     // reach probes that must not be zero
     let need: &[&str] = if property == "C07" { &["restriction_failed_calls", "restriction_passed_calls"] } else { &["calls_returning_value", "error_variant:Http", "error_variant:YaserdeError", "basic_auth_sent"] };
@@ -980,34 +1049,64 @@ fn main() {
         report.harness_errors.push(format!("reach probes stuck at zero: {unreached:?}"));
     }
     let slice: Vec<Vec<u64>> = tapes.iter().step_by((tapes.len() / 3000).max(1)).cloned().collect();
-    let a = run_batch(clients::all, &slice, property);
+    let a = run_batch(clients::all, &slice, property, 16);
     std::env::set_var("VERIF_WORKERS", "3");
-    let b = run_batch(clients::all, &slice, property);
+    let b = run_batch(clients::all, &slice, property, 16);
     std::env::remove_var("VERIF_WORKERS");
     let mism = u64::from(a.digest != b.digest);
     if mism != 0 {
-        report.harness_errors.push("determinism self-check failed: same tapes, different histories".into());
+        report.soft_errors.push("determinism self-check failed: same tapes, different histories".into());
     }
 
-    let mut by_key: BTreeMap<String, (Vec<u64>, Finding)> = BTreeMap::new();
+    // per key: candidates ordered by size; the first that reproduces in isolation (fresh thread, nothing ran before)
+    // is shrunk and becomes the replay; a key none of whose candidates reproduces in isolation depends on state left
+    // by earlier calls in the process (a `static`/thread_local in emitted code): it is still a violation and is
+    // reported with a context-dependent replay (the batch coordinates)
+    let mut cands: BTreeMap<String, Vec<(Vec<u64>, Finding)>> = BTreeMap::new();
     for (tape, f) in &stats.found {
-        let better = by_key.get(&f.key).is_none_or(|(t, _)| (tape.len(), tape.iter().map(|v| (*v).min(1000)).sum::<u64>()) < (t.len(), t.iter().map(|v| (*v).min(1000)).sum::<u64>()));
-        if better {
-            by_key.insert(f.key.clone(), (tape.clone(), f.clone()));
+        let v = cands.entry(f.key.clone()).or_default();
+        if v.len() < 400 {
+            v.push((tape.clone(), f.clone()));
         }
     }
     let mut violations = Vec::new();
-    for (key, (tape, f)) in &by_key {
-        let (min_tape, used) = simkernel::shrink_tape(tape, 400, |t| run_isolated(&infos, &insts, t, property).0.findings.iter().any(|x| &x.key == key));
+    let mut context_dependent: Vec<String> = Vec::new();
+    for (key, list) in &mut cands {
+        list.sort_by_key(|(t, _)| (t.len(), t.iter().map(|v| (*v).min(1000)).sum::<u64>()));
+        let mut chosen: Option<Vec<u64>> = None;
+        for (tape, _) in list.iter().take(60) {
+            if reproduces_in_fresh_process(property, tape, key) {
+                chosen = Some(tape.clone());
+                break;
+            }
+        }
+        let (min_tape, used, isolated_ok) = match chosen {
+            Some(t) => {
+                // fast in-process shrink first; if its result does not hold in a fresh process (leaked statics helped),
+                // shrink again with the fresh-process oracle
+                let (m, u) = simkernel::shrink_tape(&t, 300, |c| run_isolated(&infos, &insts, c, property).0.findings.iter().any(|x| &x.key == key));
+                if reproduces_in_fresh_process(property, &m, key) {
+                    (m, u, true)
+                } else {
+                    let (m2, u2) = simkernel::shrink_tape(&t, 150, |c| reproduces_in_fresh_process(property, c, key));
+                    (m2, u + u2, true)
+                }
+            }
+            None => (list[0].0.clone(), 0, false),
+        };
         let (facts, ch, sc) = run_isolated(&infos, &insts, &min_tape, property);
-        let fin = facts.findings.iter().find(|x| &x.key == key).cloned().unwrap_or(f.clone());
+        let fin = facts.findings.iter().find(|x| &x.key == key).cloned().unwrap_or(list[0].1.clone());
+        if !isolated_ok {
+            context_dependent.push(key.clone());
+        }
         violations.push(Violation {
             property: property.into(),
             engine: "net".into(),
             class: fin.class.clone(),
             key: key.clone(),
-            detail: format!("{} [{} violating runs share this key]", fin.detail, stats.found.iter().filter(|x| &x.1.key == key).count()),
-            scenario: json!({"client": infos[sc.client].name, "wsdl_port_address": infos[sc.client].wsdl_location, "credentials": creds_name(sc.creds), "calls": facts.calls_json}),
+            detail: format!("{} [{} violating runs share this key{}]", fin.detail, stats.found.iter().filter(|x| &x.1.key == key).count(), if isolated_ok { "" } else { "; it does NOT reproduce when the run starts from a fresh thread: it depends on state left behind by earlier calls in the process" }),
+            scenario: json!({"client": infos[sc.client].name, "wsdl_port_address": infos[sc.client].wsdl_location, "credentials": creds_name(sc.creds), "calls": facts.calls_json,
+                "context_dependent": !isolated_ok, "batch": {"seed": report.seed, "tier": tier, "property": property}}),
             tape: ch.tape_json(),
             observations: json!({"history": facts.trace, "virtual_time_us": facts.virtual_us, "executor_steps": facts.steps}),
             trace: json!({"shrink_reexecutions": used}),
@@ -1017,19 +1116,15 @@ fn main() {
     let mut paths = Vec::new();
     for (i, v) in report.violations.iter().enumerate() {
         let p = report.write_replay(v, i);
+        if context_dependent.contains(&v.key) {
+            println!("NOTE: {} is context dependent (state left by earlier calls in the process): `--replay` re-runs the batch it was found in", p.display());
+            paths.push(p);
+            continue;
+        }
         let st = std::process::Command::new(std::env::current_exe().unwrap()).arg(property).arg("--replay").arg(&p).output();
         match st {
             Ok(out) if out.status.code() == Some(1) && String::from_utf8_lossy(&out.stdout).contains("REPLAY-REPRODUCED") => {}
-            other => {
-                // state left in this process by earlier runs (e.g. a `static` in emitted code) may be part of the
-                // cause: the violation was observed, so it is reported; the note says how to replay it in context
-                let tape = simkernel::tape_values_from_json(&v.tape);
-                if run_isolated(&infos, &insts, &tape, property).0.findings.iter().any(|x| x.key == v.key) {
-                    println!("NOTE: {} reproduces in this process but not in a fresh one: it depends on process-wide state left by earlier calls; replay the whole batch with VERIF_SEED={} VERIF_WORKERS=1 ./check {property} {tier}", p.display(), report.seed);
-                } else {
-                    report.harness_errors.push(format!("replay of {} did not reproduce: {:?}", p.display(), other.map(|o| o.status)));
-                }
-            }
+            other => report.harness_errors.push(format!("replay of {} did not reproduce in a fresh process: {:?}", p.display(), other.map(|o| o.status))),
         }
         paths.push(p);
     }
